@@ -10,6 +10,7 @@ from . import gateway_units as gu
 from .common import BASE_TRUSTED
 
 PROP = "C16"
+ASSUMPTION_CHECKS = ['A-AIO']
 MIN_OBLIGATIONS = 20
 TRUSTED = BASE_TRUSTED + [
     "A-AIO: single event loop; create_task registers a task that has not started; cancel() on a not-started task finishes it without running; "
